@@ -8,7 +8,7 @@
 From Coq Require Import ZArith List Bool NArith.
 From Coq.Strings Require Import Byte String.
 From EsVerif.Common Require Import Base Bytes.
-From EsVerif.C01 Require Import Framing Model Spec.
+From EsVerif.C01 Require Import Framing Model Spec Layout.
 Import ListNotations.
 Open Scope Z_scope.
 Open Scope list_scope.
@@ -84,3 +84,21 @@ Definition v_tie_keys (ks : list (list byte)) : Z := if list_eqb bytes_eqb delet
 Definition v_tie_version (v : list byte) : Z := if bytes_eqb sfile_version v then 0 else 1.
 Definition v_tie_scan (lit : list byte) (n incr : nat) : Z :=
   if bytes_eqb pat lit && Nat.eqb (length pat) n && Nat.eqb blank_extra incr then 0 else 1.
+
+(* ---- the array as numpy holds it: buffer of the base array, offset of element 0, (length,
+   stride) per dimension, item size.  Model: the rows of the view are the rows numpy reports
+   (ascontiguousarray().tobytes()), the file Recfile.write leaves is recfile_write_view, and the
+   read-back; property: the file is the rows, the read-back is the rows *)
+Definition mkview (buf : list byte) (start : Z) (dims : list (Z * Z)) (item : Z) : ndview :=
+  {| v_buf := buf; v_start := start; v_dims := map (fun p => (Z.to_nat (fst p), snd p)) dims;
+     v_item := Z.to_nat item |}.
+Definition v_layout (v : ndview) (dt : dtype) (np_rows : list (list byte)) (impl_file : list byte)
+           (out : result (dtype * list (list byte))) : Z :=
+  verdict
+    (in_bounds v && rows_eqb (view_rows v) np_rows && bytes_eqb (recfile_write_view v) impl_file
+     && result_eqb rows_eqb (recfile_read0 (recfile_write_view v) dt None)
+          (match out with Ok o => Ok (snd o) | Err e => Err e end))
+    (bytes_eqb impl_file (bin_write np_rows)
+     && match out with Ok o => rf_check dt np_rows o | Err _ => false end).
+(* what the writer of the unchanged tree would leave for the same array (replay files only) *)
+Definition show_layout_v0 (v : ndview) : list byte * list byte := (recfile_write_view_v0 v, recfile_write_view v).
